@@ -270,3 +270,101 @@ def rule_E15(run: Run, prog: Program) -> int:
         else:
             run.add("E15", name, "index types of the result", PROVEN, f"all {counts[op]} cases: every axis keeps the type of the axis it comes from", loc)
     return n
+
+
+# ---------------------------------------------------------------------------------------------- E16: collections hand out their element class
+def rule_E16(run: Run, prog: Program) -> int:
+    run.rule(
+        "E16",
+        "integer indexing a collection yields the element class with its attributes intact, every other index yields a collection of the same "
+        "kind: for every concrete collection class of points, lines, planes, quadrics (dual and not) and transformations an instance is built by "
+        "interpreting its constructor chain (absint; real __init__, _validate_tensor, from_tensor / from_array with their try/except fall-backs), "
+        "then c[0], c[0, 0], c[0:2], c[[0, 1]], c[mask], c[None], c[...] are interpreted and the class, the index types and the constructor-"
+        "parameter attributes (is_dual) of the result are compared with the element-class registry",
+    )
+    coll = prog.find_cls("TensorCollection")
+    tensor = prog.cls("Tensor")
+    poly = prog.find_cls("PolytopeTensor")
+    if coll is None:
+        run.add("E16", "TensorCollection", "element class", UNDECIDED, "TensorCollection not found", "")
+        return 0
+    n = 0
+    for C in sorted(prog.concrete_subclasses(coll), key=lambda c: c.qualname):
+        if C is coll or (poly is not None and prog.is_subclass(C, poly)):
+            continue  # polytope collections derive supporting lines / planes in their constructors (join): not interpreted here
+        hit = prog.class_attr(C, "_element_class")
+        elem = prog.classes.get(prog.resolve_expr_name(hit[0].module, hit[1]) or "") if hit is not None else None
+        if elem is None:
+            run.add("E16", C.name, "element class", UNDECIDED, "_element_class not resolved", C.loc)
+            continue
+        init = prog.lookup(C, "__init__")
+        flags = [{}]
+        if init is not None and "is_dual" in [p.arg for p in init.params()]:
+            flags = [{"is_dual": False}, {"is_dual": True}]
+        for kw in flags:
+            for n_coll in (1, 2):
+                built = None
+                trank = None
+                for tr in (1, 2):  # tensor rank of the elements: found by trying (a point has 1 index, a quadric or a transformation 2)
+                    me = absint.Obj(__cls__=C)
+                    nd = n_coll + tr
+                    try:
+                        absint.Interp(prog, max_steps=100000, max_depth=14).call(
+                            init, [me, absint.Arr(nd, "f", tuple(("c", i) for i in range(nd)))], dict(kw, copy=False))
+                    except (absint.Raised, absint.Unsupported):
+                        continue
+                    cov, con = me.__dict__.get("_covariant_indices", set()), me.__dict__.get("_contravariant_indices", set())
+                    if len(cov) + len(con) == tr and nd - len(cov) - len(con) == n_coll:
+                        built, trank = me, tr
+                        break
+                label = f"{C.name}({', '.join(f'{k}={v}' for k, v in kw.items())}) with {n_coll} collection ax{'is' if n_coll == 1 else 'es'}"
+                if built is None:
+                    n += 1
+                    run.add("E16", C.name, label, UNDECIDED, "an instance could not be built by interpreting the constructor chain", C.loc)
+                    continue
+                get = prog.lookup(C, "__getitem__")
+                cases = [("c[0]", 0, n_coll - 1), ("c[0:2]", slice(0, 2, None), n_coll), ("c[[0, 1]]", [0, 1], n_coll), ("c[mask]", absint.Arr(1, "b"), n_coll),
+                         ("c[None]", None, n_coll + 1), ("c[...]", Ellipsis, n_coll)]
+                if n_coll == 2:
+                    cases += [("c[0, 0]", (0, 0), 0), ("c[:, 0]", (slice(None, None, None), 0), 1), ("c[mask2d]", absint.Arr(2, "b"), 1)]
+                for text, idx, left in cases:
+                    n += 1
+                    what = f"{label}: {text}"
+                    try:
+                        r = absint.Interp(prog, max_steps=100000, max_depth=14).call(get, [built, idx])
+                    except absint.Unsupported as e:
+                        run.add("E16", C.name, what, UNDECIDED, f"outside the interpreter's vocabulary: {e}", get.loc if get else C.loc)
+                        continue
+                    except absint.Raised as e:
+                        run.add("E16", C.name, what, VIOLATION, f"{what} raises {e.name}", get.loc if get else C.loc)
+                        continue
+                    rc = r.__dict__.get("__cls__") if isinstance(r, absint.Obj) else None
+                    problems = []
+                    if rc is None:
+                        problems.append("the result is not a tensor object")
+                    else:
+                        if left == 0 and not prog.is_subclass(rc, elem):
+                            problems.append(f"the result is a {rc.name}, not an instance of the element class {elem.name}")
+                        if left > 0 and not prog.is_subclass(rc, C) and not (prog.is_subclass(rc, coll) and _first_kind(prog, rc) is _first_kind(prog, C)):
+                            problems.append(f"the result is a {rc.name}, not a collection of the kind of {C.name}")
+                        for k, v in kw.items():
+                            if r.__dict__.get(k) != v:
+                                problems.append(f"attribute {k} is {r.__dict__.get(k)!r} on the result, {v!r} on the collection")
+                        cov, con = r.__dict__.get("_covariant_indices", set()), r.__dict__.get("_contravariant_indices", set())
+                        bc, bn = built.__dict__["_covariant_indices"], built.__dict__["_contravariant_indices"]
+                        if (len(cov), len(con)) != (len(bc), len(bn)):
+                            problems.append(f"the result has index types ({len(cov)}, {len(con)}), the collection's elements ({len(bc)}, {len(bn)})")
+                    if problems:
+                        run.add("E16", C.name, what, VIOLATION, f"{what}: " + "; ".join(problems), get.loc if get else C.loc)
+                    else:
+                        run.add("E16", C.name, what, PROVEN, f"{rc.name} with the element's index types" + (f" and {kw}" if kw else ""), get.loc if get else C.loc)
+    return n
+
+
+def _first_kind(prog: Program, c):
+    """the geometric kind of a class: its first abstract base below the tensor roots (PointTensor, LineTensor, QuadricTensor ...)"""
+    roots = {"Tensor", "BoundTensor", "TensorCollection", "ProjectiveTensor", "PointLikeTensor", "SubspaceTensor"}
+    for k in prog.mro(c):
+        if k.name.endswith("Tensor") and k.name not in roots:
+            return k
+    return None
